@@ -15,13 +15,21 @@ pub fn child() {
     std::fs::create_dir_all(root.join("scratch")).unwrap();
     let names: Vec<String> = case["names"].as_array().unwrap().iter().map(string_of).collect();
     let ctx = c01::context(&root.join("layers"));
+    let mut oks = vec![];
     for (opi, op) in case["ops"].as_array().unwrap().iter().enumerate() {
-        if op["op"] == "handle" {
-            c02::step(&ctx, &root.join("layers"), &root.join("scratch"), &names, opi, op, &case["probes"]);
+        let r = if op["op"] == "handle" {
+            c02::step(&ctx, &root.join("layers"), &root.join("scratch"), &names, opi, op, &case["probes"])
         } else {
-            c01::step(&ctx, &root.join("layers"), &root.join("scratch"), &names, opi, op);
-        }
+            c01::step(&ctx, &root.join("layers"), &root.join("scratch"), &names, opi, op)
+        };
+        let ok = match op["op"].as_str().unwrap() {
+            "handle" => r["res"]["ok"] == true,
+            "req" => r["res"].get("err").is_none() && r["writes"].as_array().is_some_and(|w| w.iter().all(|x| x["ok"] == true)),
+            _ => true,
+        };
+        oks.push(ok);
     }
+    println!("{}", serde_json::to_string(&oks).unwrap());
 }
 
 fn raw_dump(root: &Path, rel: &Path, out: &mut Vec<(String, u32, Vec<u8>)>) {
@@ -47,18 +55,24 @@ pub fn run(case: &Value) -> Value {
     let cf = base.join("case.json");
     std::fs::write(&cf, serde_json::to_string(case).unwrap()).unwrap();
     let mut dumps = vec![];
+    let mut ok_vectors: Vec<Vec<bool>> = vec![];
     for tag in ["p1", "second_process_with_a_longer_path"] {
         let root = base.join(tag);
-        let st = std::process::Command::new(std::env::current_exe().unwrap()).arg("c20_child").arg(&cf).arg(&root).env("VERIF_NO_SNAPSHOT", "1").status().unwrap();
+        let out = std::process::Command::new(std::env::current_exe().unwrap()).arg("c20_child").arg(&cf).arg(&root).env("VERIF_NO_SNAPSHOT", "1").output().unwrap();
+        let oks: Vec<bool> = serde_json::from_str(String::from_utf8_lossy(&out.stdout).trim()).unwrap_or_default();
         let mut d = vec![];
         raw_dump(&root.join("layers"), Path::new(""), &mut d);
-        dumps.push((st.success(), d));
+        dumps.push((out.status.success(), d));
+        ok_vectors.push(oks);
     }
-    let equal = dumps[0].1 == dumps[1].1;
+    // a failed operation leaves a partial state that nobody relies on (the build phase fails): then only the
+    // outcomes are compared; when every operation succeeded in both processes the trees must be identical
+    let all_ok = ok_vectors.iter().all(|v| v.iter().all(|b| *b));
+    let equal = ok_vectors[0] == ok_vectors[1] && (!all_ok || dumps[0].1 == dumps[1].1);
     let diff = dumps[0].1.iter().zip(dumps[1].1.iter()).find(|(a, b)| a != b).map(|(a, b)| json!({"a": [a.0, a.1, String::from_utf8_lossy(&a.2)], "b": [b.0, b.1, String::from_utf8_lossy(&b.2)]}));
     let files = dumps[0].1.len();
     let bytes: usize = dumps[0].1.iter().map(|x| x.2.len()).sum();
     fsutil::destroy(&base);
-    json!({"id": case["id"], "equal": equal && dumps[0].0 && dumps[1].0, "files": files, "bytes": bytes, "diff": diff,
+    json!({"id": case["id"], "equal": equal && dumps[0].0 && dumps[1].0, "all_ok": all_ok, "files": if all_ok { files } else { 0 }, "bytes": bytes, "diff": diff,
            "len": [dumps[0].1.len(), dumps[1].1.len()]})
 }
